@@ -63,15 +63,24 @@ func c23TLV(b []byte) (ok bool, tag byte, body, rest []byte) {
 	return true, b[0], b[h : h+n], b[h+n:]
 }
 
-// c23Same asserts that got is exactly the sub-slice want of the input (same length, same bytes,
-// same position: both are views of the same backing array, so the distance to the end of the
-// array, cap(), identifies the position).
+// c23Same asserts that got and want have the same length and the same bytes. For the remaining
+// input this pins the position too: a String only ever shrinks from the front, so a remainder
+// of the right length is the right suffix.
 func c23Same(got, want []byte, label string) {
 	verifrt.Assert(len(got) == len(want), label)
 	if len(got) != len(want) {
 		return
 	}
 	for i := range got {
+		if i == 300 && len(got) > 600 {
+			// Verif_C23_ReadAnyHuge only: the middle of a 64 KiB concrete filler is skipped
+			// (the first and last 300 bytes and the length are compared)
+			i = len(got) - 300
+			for ; i < len(got); i++ {
+				verifrt.Assert(got[i] == want[i], label)
+			}
+			return
+		}
 		verifrt.Assert(got[i] == want[i], label)
 	}
 }
@@ -81,9 +90,33 @@ func c23Input(lens []int) []byte {
 	return verifrt.Bytes(lens[verifrt.Choose(0, len(lens)-1)])
 }
 
-func c23ReadAny(lens []int) {
-	b := c23Input(lens)
+func c23ReadAny(lens []int, only []int) { c23ReadAnyOn(c23Input(lens), only) }
+
+// Verif_C23_ReadAnyHuge: the three-octet length form: inputs of 65541..65543 bytes whose first
+// six bytes are symbolic and the rest a concrete zero filler; malformed headers in any way, or
+// well formed with a content length of 65535 (0x82 ff ff), 65536 or 65537 (0x83 01 00 0x). The
+// four-octet form needs inputs of 16 MiB and is only covered on its rejecting side (non-minimal /
+// does not fit).
+func Verif_C23_ReadAnyHuge() {
+	b := make([]byte, 65541+verifrt.Choose(0, 2))
+	verifrt.Fill(b[:6])
+	c23ReadAnyOn(b, []int{65535, 65536, 65537})
+}
+
+func c23ReadAnyOn(b []byte, only []int) {
 	want := asn1.Tag(verifrt.U8())
+	if only != nil {
+		// bound the fan-out: of the well-formed inputs keep those whose content length is one
+		// of the listed boundary values (malformed inputs are all kept)
+		hok, _, n := c23Header(b)
+		if hok {
+			in := false
+			for _, x := range only {
+				in = in || n == x
+			}
+			verifrt.Assume(in)
+		}
+	}
 	ok, tag, body, rest := c23TLV(b)
 	elem := b[:len(b)-len(rest)]
 
@@ -181,12 +214,15 @@ func c23ReadAny(lens []int) {
 // SkipASN1, PeekASN1Tag, ReadOptionalASN1, SkipOptionalASN1 on all byte strings of length 0..7
 // (requested tag symbolic). At these lengths every long-form length is rejected (too short or
 // non-minimal); long-form acceptance is in Verif_C23_ReadAnyLong.
-func Verif_C23_ReadAny() { c23ReadAny([]int{0, 1, 2, 3, 4, 5, 6, 7}) }
+func Verif_C23_ReadAny() { c23ReadAny([]int{0, 1, 2, 3, 4, 5, 6, 7}, nil) }
 
-// Verif_C23_ReadAnyLong: same obligations on all byte strings of length 130, 131, 132 (0x81 form:
-// content 127/128/129 with the 3-byte header; also every short-form and 0x82.. header over
-// these lengths), 259, 260, 261 (0x81 0xff / 0x82 0x01 0x00 boundary).
-func Verif_C23_ReadAnyLong() { c23ReadAny([]int{130, 131, 132, 259, 260, 261}) }
+// Verif_C23_ReadAnyLong: same obligations on the byte strings of length 130, 131, 132, 259, 260,
+// 261 (all bytes symbolic) that are either malformed in any way (every non-minimal, truncated,
+// oversized, indefinite or >4-octet length form over these sizes) or well formed with a content
+// length of 126, 127 (short form), 128, 129, 254, 255 (0x81 form), 256 or 257 (0x82 form).
+func Verif_C23_ReadAnyLong() {
+	c23ReadAny([]int{130, 131, 132, 259, 260, 261}, []int{126, 127, 128, 129, 254, 255, 256, 257})
+}
 
 // c23MinimalInt: X.690 8.3.2 — with more than one content octet, the first octet and bit 8 of
 // the second shall not be all ones and shall not be all zero; at least one octet (8.3.1).
@@ -287,6 +323,21 @@ func c23SignedInt(max int) {
 		verifrt.Assert(r == v, "signed INTEGER value")
 		c23Same(s, rest, "signed INTEGER: advances by the element size")
 		verifrt.Reach("accepted")
+		// (R) uniqueness: the accepted bytes are the builder's encoding of the value.
+		var bb Builder
+		switch kind {
+		case 3:
+			bb.AddASN1Int64(r)
+			c23Unique(&bb, b, rest, "signed INTEGER: accepted encoding equals AddASN1Int64(value)")
+		case 5:
+			if want&0x1f != 0x1f {
+				bb.AddASN1Int64WithTag(r, asn1.Tag(want))
+				c23Unique(&bb, b, rest, "signed INTEGER: accepted encoding equals AddASN1Int64WithTag(value)")
+			}
+		case 6:
+			bb.AddASN1Enum(r)
+			c23Unique(&bb, b, rest, "ENUMERATED: accepted encoding equals AddASN1Enum(value)")
+		}
 	}
 }
 
@@ -355,6 +406,11 @@ func c23UnsignedInt(max int) {
 		}
 		c23Same(s, rest, "unsigned INTEGER: advances by the element size")
 		verifrt.Reach("accepted")
+		if kind == 3 {
+			var bb Builder
+			bb.AddASN1Uint64(r)
+			c23Unique(&bb, b, rest, "unsigned INTEGER: accepted encoding equals AddASN1Uint64(value)")
+		}
 	}
 }
 
@@ -407,6 +463,9 @@ func c23BigInt(max int) {
 	c23Same(buf, mag, "big INTEGER magnitude")
 	c23Same(s, rest, "big INTEGER: advances by the element size")
 	verifrt.Reach("accepted")
+	var bb Builder
+	bb.AddASN1BigInt(x)
+	c23Unique(&bb, b, rest, "big INTEGER: accepted encoding equals AddASN1BigInt(value)")
 }
 
 // Verif_C23_BigInt: lengths 0..12 (content up to 10 octets = more than one 64-bit word).
@@ -429,5 +488,8 @@ func Verif_C23_Boolean() {
 		verifrt.Assert(v == (body[0] == 0xff), "BOOLEAN value")
 		c23Same(s, rest, "BOOLEAN: advances by the element size")
 		verifrt.Reach("accepted")
+		var bb Builder
+		bb.AddASN1Boolean(v)
+		c23Unique(&bb, b, rest, "BOOLEAN: accepted encoding equals AddASN1Boolean(value)")
 	}
 }
